@@ -14,6 +14,7 @@ PID = "C20"
 def make_cases(tier, seed):
     cases = gen_sel.gen_isolation(seed) + gen_sel.gen_invalid(seed)
     cases += gen_sel.gen_reconnect(seed, 60 if tier == "quick" else 1500)
+    cases += gen_sel.gen_pipeline(seed, 150 if tier == "quick" else 4000)
     cases += gen_sel.gen_random(seed, 8000 if tier == "quick" else 60000)
     return cases
 
@@ -31,6 +32,15 @@ def post(ctx, d):
             failing, cx = ttllib.realclock_sample(ctx, d, PID, gen_sel.gen_reconnect(ctx.seed + 11, 25 if ctx.tier == "quick" else 300, "c20rcr"),
                                                   "handle", gmp, tag="rc%s" % (gmp or "all"))
             cov.update(cx)
+    # pipelining on the real scheduler (few blocking pops: their timeout is a real second) and over TCP
+    for gmp in (1, None):
+        if not failing:
+            failing, cx = ttllib.realclock_sample(ctx, d, PID, gen_sel.gen_pipeline(ctx.seed + 17, 40 if ctx.tier == "quick" else 400, "c20plr", blocking=0.02),
+                                                  "handle", gmp, tag="pl%s" % (gmp or "all"))
+            cov.update({k.replace("realclock_", "pipeline_realclock_"): v for k, v in cx.items()})
+    if not failing:
+        failing, cx = ttllib.tcp_sample(ctx, d, PID, gen_sel.gen_pipeline(ctx.seed + 19, 6 if ctx.tier == "quick" else 60, "c20pltcp", blocking=0.0))
+        cov.update({"pipeline_" + k: v for k, v in cx.items()})
     if not failing:
         failing, cx = ttllib.tcp_sample(ctx, d, PID, gen_sel.gen_reconnect(ctx.seed + 13, 6 if ctx.tier == "quick" else 60, "c20rctcp"))
         cov.update({"reconnect_" + k: v for k, v in cx.items()})
@@ -76,6 +86,9 @@ def run(ctx):
              "(f) connection lifecycle: 12-30 rounds per case of a connection that SELECTs n != 0, writes a marker and ends (CLOSE, Handle has "
              "returned), followed by new connections (fresh ids and ids of closed connections, sequential and 2-5 concurrent) that never SELECT "
              "and read whoami / write at once -- through Manager.Handle under faketime, on the real scheduler with GOMAXPROCS 1 and all, and over TCP; "
+             "(h) pipelining: PIPE..FLUSH blocks in which every connection sends SELECT i + 1-3 data commands (repeated, 35% queued behind BLPOP/BRPOP "
+             "nolist 1) in ONE write and reads the replies afterwards, 1-4 connections with different selections, whoami/k reads and dumps after "
+             "each block -- through Manager.Handle under faketime (150 cases), on the real scheduler with GOMAXPROCS 1 and all, and over TCP; "
              "(g) cluster configuration path: generated cluster JSON files (no / databases / Databases / DATABASES / dataBases key x values 0,1,2,16,..., "
              "duplicates, wrong types, other fields varied) through config.ParseConfigJson: accepted => Databases == 1; the node built from it is "
              "driven through HandleCluster/handleClusterCommits (hook H4 loop-back) by 2-3 connections (B never SELECTs, A SELECTs) and compared with "
